@@ -90,6 +90,9 @@ structure Tween (α : Type) where
 /-- mirrors: tween.rs::Tween::value -/
 def Tween.value (t : Tween α) (time : α) : α := tweenValue t.easing t.durationNs time
 
+/-- a pending `ValueChangeCommand<T>` read from a `CommandReader` (`None` = nothing new) -/
+abbrev Cmd (α τ : Type) := Option (Value α τ × Tween α)
+
 /-- mirrors: parameter.rs::State -/
 inductive PState (α τ : Type) where
   | idle (value : Value α τ)
